@@ -17,7 +17,7 @@ from checks import common as cm
 from checks import c01, c03
 
 ID = 'C06'
-BUDGET = {'quick': 8000, 'thorough': 500000}
+BUDGET = {'quick': 6000, 'thorough': 500000}
 WALL = {'quick': 100, 'thorough': 1500}
 CHUNK = 40
 SELFTEST = {'quick': 14, 'thorough': 200}
@@ -78,6 +78,8 @@ def gen(rng, tier, idx):
     r = rng.random()
     if idx < 6 and tier == 'quick' or idx < 40 and tier == 'thorough':
         kind = 'hashseed'
+    elif r < 0.006:
+        kind = 'driver'
     elif r < 0.40:
         kind = 'layout'
     elif r < 0.70:
@@ -158,6 +160,14 @@ def gen(rng, tier, idx):
         c['fix_val'] = rng.randrange(npts[c['fix_axis']])
         c['sched'] = _arrival_sched(rng, total, idx, tier)
         return c
+    if kind == 'driver':
+        from checks import phys
+        npts = [5, 5, 7, 5]
+        ckw = phys.gen_constants(rng, amplified=True, npts=npts)
+        g = rng.choice([[1, 2], [2, 1], [1, 3], [3, 1], [2, 2]])
+        P = g[0] * g[1]
+        return dict(kind='driver', P=P, grid=g, ckw=ckw, steps=rng.choice([1, 1, 2]), save=rng.choice([1, 2]),
+                    nofolder=rng.random() < 0.5, sched=_arrival_sched(rng, P, idx, tier))
     # hashseed
     sub = c01.gen(rng, tier, idx)
     sub = _route_rich(rng, sub) if len(sub['shape']) >= 3 else sub
@@ -498,8 +508,37 @@ def run_hashseed(case, tape):
     return execute(ID, 1, case['sched'], tape, rank_fn, post)
 
 
+def run_driver(case, tape):
+    """fullSimulation.main() for one or two steps under the arrival-order sweep:
+    only the monitors (matching, deadlock, buffers, h5 metadata) and the presence of the
+    checkpoints are checked here; values are C05/C17/C18's business."""
+    from harness import Multi
+    from checks import c18
+    M = Multi(ID, tape)
+    ckw = case['ckw']
+    tEnd = case['steps'] * ckw['dt']
+    with Scratch() as base:
+        cfile = os.path.join(base, 'constants.json')
+        c18._write_constants(cfile, ckw)
+        folder = os.path.join(base, 'simulation_0' if case['nofolder'] else 'out')
+        args = [tEnd, 10 ** 30, '-c', cfile, '-s', case['save']] + ([] if case['nofolder'] else ['-f', folder])
+        c18._driver_world(M, case['P'], case['grid'], case['sched'], base, args)
+        times = c18._list_times(folder) if os.path.isdir(folder) else []
+
+    def oracle():
+        if 0 not in times or tEnd not in times:
+            raise OracleFail('checkpoint-missing', dict(times=times, want=[0, tEnd]))
+        probes = {'kind_driver': 1}
+        if case['sched'].get('priority_perm') is not None:
+            probes['driver_arrival_order_P%d_%s' % (case['P'], ''.join(map(str, case['sched']['priority_perm'])))] = 1
+        return dict(nontrivial=True, probes=probes)
+    return M.finish(oracle=oracle)
+
+
 def run(case, tape=None):
     k = case['kind']
+    if k == 'driver':
+        return run_driver(case, tape)
     if k == 'layout':
         return run_layout(case, tape)
     if k == 'minmax':
